@@ -7,7 +7,8 @@ Definition judge_convert (c : bool * list str * list str) : nat :=
   verdict (negb (list_eqb str_eqb (convert_to_free ll lines) impl)) false 0.
 
 (* fixed-form file through converter and reader:
-   (length_limit, lines, pieces of every statement, region, reader output of the implementation) *)
+   (length_limit, lines, pieces of every statement, region, reader output of the implementation);
+   region 1 = a character literal continued across lines (the one open finding) *)
 Definition judge_fixed (c : bool * list str * list (list piece) * nat * (list str + nat)) : nat :=
   let '(ll, lines, pss, region, impl) := c in
   verdict (negb (res_eqb (read_all default_cfg (map chomp (convert_to_free ll lines))) impl))
